@@ -669,6 +669,18 @@ class DefaultCodec(Codec):
                         from_parent=True,
                     )
 
+            # A partition that was itself read back from storage and is returned again as it is
+            # carries the entries it inherited from its merge parent in its own index: keep them
+            if isinstance(obj, DefaultCodec.PicklePartition):
+                # noinspection PyProtectedMember
+                for k, v in obj._index.items():
+                    if v.from_parent:
+                        # noinspection PyProtectedMember
+                        data_source.reference(
+                            obj._data_source, v.content_key, v.content_key
+                        )
+                        index[k] = v
+
             # Layer current keys on top of parent's keys
             output_keys = dict()
             keys = obj.list_keys(_include_merge_parent=False)
